@@ -1,8 +1,46 @@
-import Pymeeus.Gen.Q.EpochRelig
-namespace Pymeeus.C19
-open Pymeeus Pymeeus.PQ Pymeeus.GenQ
+import Pymeeus.Refine.Easter
+/-
+C19 — Easter, Pesach and Moslem-calendar conversions follow their calendar rules.
 
-/-- anchor: Easter 2000 is 23 April -/
-theorem anchor_easter_2000 : easter 2000 = (4, 23) := by decide +kernel
+Property theorems only (helper lemmas live in Refine/).  They are statements about
+`Pymeeus.GenQ`, the exact-arithmetic instantiation of the model in templates/EpochRelig.lean
+(and templates/EpochCore.lean for `compute_jde`), against the calendar definitions of
+Spec/Computus.lean, Spec/Hebrew.lean, Spec/Islamic.lean and Spec/Civil.lean.
+-/
+namespace Pymeeus.C19
+open Pymeeus Pymeeus.PQ Pymeeus.GenQ Pymeeus.Refine Pymeeus.Spec
+
+/-- "Easter for every year ... equals the date given by the tabular epact definition of the
+    Computus": for EVERY integer year (no bound in either direction) `Epoch.easter` returns the
+    date of Spec/Computus.lean (golden number, Dionysius' table up to 1582; from 1583 epact with
+    solar and lunar equation and the two exceptions, paschal full moon, the Sunday after it). -/
+theorem easter_computus (y : Int) : easter y = Computus.easter y := by
+  rw [easter_int]; exact (easterI_computus y).1
+
+/-- "Easter for every year falls on a Sunday from 22 March to 25 April of the calendar in force
+    (Julian to 1582, Gregorian from 1583)": for every year ≥ -4712, without upper bound, the result
+    is a date of the civil calendar, lies in 22 March .. 25 April, and `Epoch(y, m, d).dow()` is 0. -/
+theorem easter_sunday_range (y : Int) (hy : -4712 ≤ y) :
+    Valid y (easter y).1 (easter y).2 ∧
+    (((easter y).1 = 3 ∧ 22 ≤ (easter y).2) ∨ ((easter y).1 = 4 ∧ (easter y).2 ≤ 25)) ∧
+    relig_dow (compute_jde y (easter y).1 (ofInt (easter y).2)) = 0 := by
+  obtain ⟨he, h22, h56⟩ := easterI_computus y
+  have hs := computus_sunday y
+  rw [easter_int, he, compute_jde_int, relig_dow_int]
+  unfold Computus.easter
+  unfold Computus.weekday at hs
+  by_cases h : Computus.easterMarchDay y ≤ 31
+  · simp only [h, if_true]
+    rw [march_jdn]
+    refine ⟨⟨hy, by decide, by decide, by omega, ?_, by rintro ⟨_, h10, _⟩; exact absurd h10 (by decide)⟩, by simp; omega, hs⟩
+    unfold monthLen; simpa using h
+  · simp only [h, if_false]
+    rw [april_jdn]
+    refine ⟨⟨hy, by decide, by decide, by omega, ?_, by rintro ⟨_, h10, _⟩; exact absurd h10 (by decide)⟩, by simp; omega, hs⟩
+    unfold monthLen; simp; omega
+
+-- Non-vacuity / anchors (Meeus' examples, both calendars, the earliest and the latest date).
+example : easter 1991 = (3, 31) ∧ easter 1818 = (3, 22) ∧ easter 1943 = (4, 25) ∧ easter 2000 = (4, 23) ∧
+    easter 179 = (4, 12) ∧ easter 1243 = (4, 12) ∧ easter (-4712) = (4, 7) := by decide +kernel
 
 end Pymeeus.C19
